@@ -137,6 +137,12 @@ def report(ctx, hits):
     ctx.extra['anchored_lines_executable'] = len(ex)
     ctx.extra['anchored_lines_executed'] = len(ex) - len(missed)
     ctx.extra['anchored_lines_not_executed'] = lines
+    ctx.extra['anchored_lines_not_executed_why'] = (
+        'custom _cp_dispatch branches and tools.staticdir.section of find_handler (outside the config model); multipart / '
+        'Content-Disposition parsing of Entity.__init__ (Part level, C04); item access / delattr through _ThreadLocalProxy '
+        '(request and response are not containers); throw_errors, HEAD, app-less requests in Request.run/_do_respond; '
+        'start_response failing and KeyboardInterrupt/SystemExit inside the trapper (not injected); non-bytes status/header '
+        'TypeErrors of AppResponse; Application(config=...) / CPWSGIApp(pipeline=...) constructor arguments')
     if cov.missing_anchors:
         ctx.extra['anchored_functions_not_found'] = cov.missing_anchors
     ctx.count('anchored_lines_not_executed', len(lines))
